@@ -106,7 +106,14 @@ double __real_exp(double);
 inline double& __v_exp_max() { static double m = -1e300; return m; }
 inline int& __v_exp_zero() { static int z = 0; return z; }
 inline int& __v_exp_n() { static int z = 0; return z; }
+inline double& __v_exp_scope_max() { static double m = -1e300; return m; }
 double __wrap_exp(double x);
+inline void __v_exp_scope_begin(void) { __v_exp_scope_max() = -1e300; }
+inline void __v_check_exp_no_overflow(const char* label) {
+    char buf[256];
+    std::snprintf(buf, sizeof buf, "%s: no exp argument exceeds 709 (overflow of a double)", label);
+    __v_check(__v_exp_scope_max() <= 709.0, buf);
+}
 inline void __v_check_exp_args(const char* label) {
     char buf[256];
     std::snprintf(buf, sizeof buf, "%s: every exp argument <= 0", label);
@@ -119,6 +126,7 @@ inline void __v_check_exp_args(const char* label) {
 extern "C" void h_main();
 extern "C" double __wrap_exp(double x) {
     if (x > __v_exp_max()) __v_exp_max() = x;
+    if (x > __v_exp_scope_max()) __v_exp_scope_max() = x;
     if (x <= 1e-12 && x >= -1e-12) __v_exp_zero()++;
     __v_exp_n()++;
     return __real_exp(x);
